@@ -1,4 +1,6 @@
 import TorrentVerif.Proofs.Recheck
+import TorrentVerif.Proofs.RecheckFull
+import TorrentVerif.Model.ExceptEq
 /-
   C04 — recheck never reports 100 % for damaged or incomplete content.
   Property theorems only; helper lemmas live in `Proofs/Recheck.lean`.
@@ -238,6 +240,44 @@ theorem damaged_file_noticed_v2 (H H1 : Bytes → Bytes) (B hs bpp : Nat) (hB : 
 example :
     Impl.iterHashes (Impl.hashCheck toyH 2 2 2
       ([] ++ Impl.damagedFile toyH toyH 2 2 2 [1,2,3,4,5,6,7] (some [1,2,3,4,5]) :: [])) = (4, 7) := by
+  decide +kernel
+
+/-! ### the whole `Checker` (`Model/RecheckFull`): metafile → file map → verdicts → result -/
+
+open RF in
+/-- Whole `Checker`, v1, v2 and hybrid.  Well-formed metafile (`Spec.plan` defined), disk in
+    scope (nothing longer than recorded, a recorded digest per piece, no directory where a
+    file is described), content argument resolved by `find_root` (root or parent), not the
+    empty-single-file case.  If ANY piece verdict of the reference is negative — the digest
+    of the zero-filled on-disk bytes of some piece of the stream (v1), or the merkle / padder
+    digest of some piece of some file (v2, hybrid), differs from the recorded one — then the
+    run succeeds with `matched < consumed`: strictly less than 100 %.  (From "bytes differ"
+    to "digest differs" is collision resistance: `flip/truncate/remove_changes_chunk`,
+    `damage_changes_piece_v2` above give the data step.) -/
+theorem damage_noticed (H1 H : Bytes → Bytes) (B hs : Nat) (hhs : 0 < hs) (mf : BVal)
+    (disk : Disk) (p : Spec.Plan) (argName : Bytes) (here : Option Node)
+    (hplan : Spec.plan B mf disk = some p) (hscope : p.InScope B hs)
+    (hroot : Impl.findRoot (Impl.nameOf mf) argName here = .ok disk)
+    (hnodir : Spec.NoDirAtFile mf disk) (hne : ¬ Spec.EmptySingleV2 mf (isFile disk))
+    (v : Bool × Nat) (hv : v ∈ p.verdicts H1 H B hs) (hneg : v.1 = false) :
+    ∃ vs matched consumed,
+      Impl.recheckMeta H1 H B hs mf argName here = .ok (vs, matched, consumed) ∧
+      matched < consumed :=
+  ⟨_, _, _,
+    Spec.recheckMeta_of_plan H1 H B hs hhs mf disk p argName here hplan hscope hroot hnodir hne,
+    Spec.ratio_lt _ v hv hneg (Spec.verdicts_size_pos H1 H B hs mf disk p hplan v hv)⟩
+
+/-- hybrid metafile, last file `d/c` removed (content argument = root): its piece fails,
+    7 of 10 bytes match; v1 metafile, last byte of the last file flipped (content argument =
+    parent `h`): the final short piece fails, 4 of 7 -/
+example :
+    Impl.recheckMeta RF.Ex.h1 toyH 2 2 RF.Ex.hybridMeta [110]
+        (some (.dir [([97], .file [1, 2, 3, 4, 5, 6, 7]), ([98], .file [])]))
+      = .ok ([(true, 4), (true, 3), (false, 3)], 7, 10) ∧
+    Impl.recheckMeta RF.Ex.h1 toyH 2 2 RF.Ex.v1Meta [104]
+        (some (.dir [([110], .dir [([97], .file [1, 2, 3]), ([98], .file []),
+          ([100], .dir [([99], .file [4, 9, 6, 7])])])]))
+      = .ok ([(true, 4), (false, 3)], 4, 7) := by
   decide +kernel
 
 end TorrentVerif.Props.C04
